@@ -373,6 +373,10 @@ impl<T: Transport, Env: UtpEnvironment> VirtualSocket<T, Env> {
         if self.timers.retransmit.expired(self.this_poll.now) {
             trace!("retransmit timer expired");
             METRICS.rto_timeouts_count.increment(1);
+            #[cfg(ikatson_librqbit_utp_verif)]
+            crate::verif::emit(|| crate::verif::VerifEvent::RetransmitTimerExpired {
+                id: self.verif_id.clone(),
+            });
 
             let seg = self.user_tx_segments.iter_mut_for_sending(None).next();
             if let Some(mut seg) = seg {
